@@ -61,7 +61,6 @@ import (
 
 const (
 	sigDisabledRuns    = "C17/registry/disabled-contract-executed"
-	sigDisabledNoFail  = "C17/registry/call-to-disabled-contract-does-not-fail"
 	sigEnabledDead     = "C17/registry/enabled-contract-not-callable"
 	sigUnregisteredRun = "C17/registry/unregistered-address-callable"
 	sigModeDiffers     = "C17/registry/modes-disagree"
@@ -457,17 +456,45 @@ func (o opResult) coq() string {
 	return "XErr"
 }
 
-// runTx: one block with one transaction
-func (w *world) runTx(signer *itutiltypes.TestAccount, msg sdk.Msg, decode func([]byte) *common.Address) opResult {
+// runTx: one block with the transaction; when around != nil the block is
+// [eth call to *around, the transaction, eth call to *around] so that the order inside a block is exercised
+func (w *world) runTx(signer *itutiltypes.TestAccount, msg sdk.Msg, decode func([]byte) *common.Address, around *common.Address, o *stepOut) opResult {
 	w.refreshPrice()
 	bz, err := w.cosmosTx(signer, msg)
 	if err != nil {
 		// the envelope cannot even be built (e.g. the signer field is not an address): a node rejects the same bytes
 		return opResult{class: "err", info: "build: " + err.Error()}
 	}
-	res := w.c.RunBlock([][]byte{bz})
-	require.Len(w.t, res.TxResults, 1)
+	txs := [][]byte{bz}
+	if around != nil {
+		n := w.c.Nonce(w.c.QueryCtx(), w.prob.GetEthAddress())
+		b1, _ := w.ethTx(n, *around, probeSel[prName])
+		b2, _ := w.ethTx(n+1, *around, probeSel[prName])
+		txs = [][]byte{b1, bz, b2}
+	}
+	res := w.c.RunBlock(txs)
+	require.Len(w.t, res.TxResults, len(txs))
 	tr := res.TxResults[0]
+	if around != nil {
+		tr = res.TxResults[1]
+		for k, i := range []int{0, 2} {
+			er := res.TxResults[i]
+			var p pres
+			if er.Code != 0 {
+				p = pres{Class: "TxRejected", Str: er.Log}
+			} else {
+				ret, vmErr := decodeEthResponse(w.t, w.c, er.Data)
+				p = classify(*around, probeSel[prName], ret, vmErr)
+			}
+			ob := probeObs{0, *around, prName, p, 0}
+			if k == 0 {
+				o.pre = append(o.pre, ob)
+			} else {
+				o.post = append(o.post, ob)
+			}
+		}
+		w.side.Count("same-block-probe:" + o.pre[0].Res.Class + ">" + o.post[0].Res.Class)
+	}
 	if tr.Code == 0 {
 		var data sdk.TxMsgData
 		require.NoError(w.t, w.c.S.EncodingConfig.Codec.Unmarshal(tr.Data, &data))
@@ -695,6 +722,8 @@ type stepOut struct {
 	apiNew       bool
 	supplyBefore map[string]*big.Int
 	gen          *cpctypes.GenesisState
+	// calls in the same block as the step's transaction: before it (seen against the state before) and after it
+	pre, post []probeObs
 }
 
 func (w *world) extOkErc20(m *cpctypes.MsgDeployErc20ContractRequest) bool {
@@ -751,7 +780,12 @@ func (w *world) step(cur regState) stepOut {
 		switch {
 		case path < 45 && key != nil:
 			out.label = "erc20/tx"
-			out.res = w.runTx(key, msg, decodeErc20)
+			var around *common.Address
+			if r.Chance(60) {
+				a := crypto.CreateAddress(cpctypes.CpcModuleAddress, cur.Seq) // where the contract will be, if it is deployed
+				around = &a
+			}
+			out.res = w.runTx(key, msg, decodeErc20, around, &out)
 		case path < 70:
 			out.label = "erc20/router"
 			out.res = w.runHandler(msg, decodeErc20)
@@ -782,7 +816,12 @@ func (w *world) step(cur regState) stepOut {
 		switch {
 		case path < 45 && key != nil:
 			out.label = "staking/tx"
-			out.res = w.runTx(key, msg, decodeStaking)
+			var around *common.Address
+			if r.Chance(60) {
+				a := cpctypes.CpcStakingFixedAddress
+				around = &a
+			}
+			out.res = w.runTx(key, msg, decodeStaking, around, &out)
 		case path < 70:
 			out.label = "staking/router"
 			out.res = w.runHandler(msg, decodeStaking)
@@ -813,7 +852,7 @@ func (w *world) step(cur regState) stepOut {
 		msg := &cpctypes.MsgUpdateParams{Authority: authority, NewParams: np}
 		if key != nil && r.Chance(60) {
 			out.label = "params/tx"
-			out.res = w.runTx(key, msg, decodeNone)
+			out.res = w.runTx(key, msg, decodeNone, nil, &out)
 		} else {
 			out.label = "params/router"
 			out.res = w.runHandler(msg, decodeNone)
@@ -1479,14 +1518,16 @@ func (w *world) oracleProbes(s *regState, probes []probeObs, desc interface{}) {
 			}
 		case m.Disabled && p.Via != 0:
 			// the forwarder reverts when its call fails: an answer of the contract must not come back
-			if p.Res.Class != "Revert" {
+			if p.Res.Class == "OkStr" || p.Res.Class == "OkUint" {
 				w.hit(sigDisabledRuns, where+" (the contract is marked disabled)", desc)
 			}
 		case m.Disabled:
+			// the text demands that the contract is not executed; that the call fails (rather than finding nothing
+			// at the address) is what the code does and what the model says, and is compared there
 			if custom {
 				w.hit(sigDisabledRuns, where+" (the contract is marked disabled)", desc)
 			} else if p.Res.Class != "Fail" {
-				w.hit(sigDisabledNoFail, where+" (the contract is marked disabled: the call must fail)", desc)
+				w.side.Count("note:call-to-disabled-contract-did-not-fail")
 			}
 		default:
 			if !custom {
@@ -1735,7 +1776,11 @@ func emitCase(t *testing.T, cases *CasesFile, side *Sidecar, i int, kind string,
 		w.oracleState(&o.after, where)
 		w.oracleStep(o, where)
 		var pterms []string
-		if ps, ok := probes[k]; ok {
+		if len(o.pre) > 0 {
+			w.oracleProbes(&o.before, o.pre, where)
+		}
+		ps := append(append([]probeObs{}, o.post...), probes[k]...)
+		if len(ps) > 0 {
 			w.oracleProbes(&o.after, ps, where)
 			for _, p := range ps {
 				side.Count(fmt.Sprintf("probe:%s:%s", modeNames[p.Mode], p.Res.Class))
@@ -1759,8 +1804,12 @@ func emitCase(t *testing.T, cases *CasesFile, side *Sidecar, i int, kind string,
 			}
 			desc.Probes += len(ps)
 		}
-		stepTerms = append(stepTerms, fmt.Sprintf("{| r_kind := %s; r_res := %s; r_metas := %s; r_didx := %s; r_seq := %s; r_prm := %s; r_probes := %s |}",
-			o.kind, o.res.coq(), o.after.metasCoq(), o.after.didxCoq(), CqZu(o.after.Seq), paramsCoq(o.after.Params), CqList(pterms)))
+		var preTerms []string
+		for _, p := range o.pre {
+			preTerms = append(preTerms, fmt.Sprintf("(%s, %s, %s, %s, %s)", modeNames[p.Mode], viaNames[p.Via], cz(addrZ(p.To)), probeNames[p.Probe], p.Res.coq()))
+		}
+		stepTerms = append(stepTerms, fmt.Sprintf("{| r_kind := %s; r_res := %s; r_metas := %s; r_didx := %s; r_seq := %s; r_prm := %s; r_probes := %s; r_pre := %s |}",
+			o.kind, o.res.coq(), o.after.metasCoq(), o.after.didxCoq(), CqZu(o.after.Seq), paramsCoq(o.after.Params), CqList(pterms), CqList(preTerms)))
 	}
 	if w.api {
 		side.Count("case-class:with-unrestricted-keeper-calls")
